@@ -34,16 +34,22 @@ def atStmtStartRev : List Kind → Bool
 
 def atStmtStartB (pre : List Token) : Bool := atStmtStartRev (pre.map (·.kind)).reverse
 
-/-- What the property calls a docstring-like string statement, at token level: token `i` is a STRING
-at a statement start and the very next token is the NEWLINE that ends the logical line (the
-statement consists of that string literal only). -/
-def DocstringLike (ts : List Token) (i : Nat) : Prop :=
-  ∃ t, ts[i]? = some t ∧ t.kind = .string ∧ AtStmtStart (ts.take i) ∧
-    (ts[i + 1]?).map (·.kind) = some Kind.newline
+/-- The kind of the next token that is not a comment (a trailing comment belongs to no statement). -/
+def nextCodeKind : List Token → Option Kind
+  | [] => none
+  | t :: ts => if t.kind = .comment then nextCodeKind ts else some t.kind
 
-def docstringLikeB (ts : List Token) (i : Nat) : Bool :=
+/-- What the property calls a docstring-like string statement, at token level and WITHOUT reference to
+the code's look-ahead: token `i` is a STRING standing at a statement start, and the statement ends
+there — apart from comments, the next token is the NEWLINE that closes the logical line. In other
+words: a string literal that is a whole statement. -/
+def DocStmt (ts : List Token) (i : Nat) : Prop :=
+  ∃ t, ts[i]? = some t ∧ t.kind = .string ∧ AtStmtStart (ts.take i) ∧
+    nextCodeKind (ts.drop (i + 1)) = some Kind.newline
+
+def docStmtB (ts : List Token) (i : Nat) : Bool :=
   match ts.drop i with
-  | t :: rest => t.kind = .string && atStmtStartB (ts.take i) && (nextKind rest == some .newline)
+  | t :: rest => t.kind = .string && atStmtStartB (ts.take i) && (nextCodeKind rest == some .newline)
   | [] => false
 
 /-! ### the main guard -/
